@@ -10,11 +10,24 @@ finite and its exact value is the integer k"; `Normal x` is the form of every
 number that reaches the model (odd mantissa that fits the precision).
 The Go standard library, NFC normalisation and grapheme segmentation are the
 parameter `L : Lib` / `nfc` / `clusters` of the theorems: every statement holds for
-ALL library behaviours.
+ALL library behaviours (two theorems assume a named law about a library answer —
+`IdxOK` for regexp's index lists, the field-count promise of encoding/csv — and the
+harness probes those laws on the real library on every run).
+Sections: numbers · strings on clusters · library glue (incl. indent) · format (scanner =
+grammar, saturating numbers, argument bookkeeping, limits, dispatch, totality) · formatdate ·
+formatlist · jsonencode/jsondecode on top of C15 · regex · non-vacuity examples.
 -/
 import CtyModel.Lemmas.StdNumStr
 import CtyModel.Lemmas.StdNumMisc
 import CtyModel.Lemmas.StdNumFmt
+import CtyModel.Lemmas.d14Fmt
+import CtyModel.Lemmas.d14Str
+import CtyModel.Lemmas.d14FormatList
+import CtyModel.Lemmas.d14Date
+import CtyModel.Lemmas.d14Regex
+import CtyModel.Lemmas.d14Json
+import CtyModel.Lemmas.d14Glue
+import CtyModel.Lemmas.d14Dispatch
 import CtyModel.Props.C02
 namespace CtyModel
 namespace C14
@@ -161,23 +174,23 @@ theorem parseint_digits (base : Nat) (hb : base ≤ 62) (body : List Char) (hne 
     setString ('+' :: body) base = some (digitsVal base body : Int) ∧
     setString ('-' :: body) base = some (-(digitsVal base body : Int)) := by
   obtain ⟨h1, h2, h3⟩ := (scan_body base body).1 ⟨hne, hall⟩
-  have hs := scanSign_digits base hb body hall
+  have hs := StdNum.scanSign_digits base hb body hall
   refine ⟨?_, ?_, ?_⟩
   · simp [setString, hs, h1, h2, h3]
-  · simp [setString, scanSign, h1, h2, h3]
-  · simp [setString, scanSign, h1, h2, h3]
+  · simp [setString, StdNum.scanSign, h1, h2, h3]
+  · simp [setString, StdNum.scanSign, h1, h2, h3]
 
 /-- `parseint`, rejects exactly the non-digits: if, after the optional sign, nothing
 is left or some character is not a digit of the base, the string is rejected. -/
 theorem parseint_rejects (base : Nat) (s : List Char)
-    (h : (scanSign s).2 = [] ∨ ∃ c ∈ (scanSign s).2, digitVal base c ≥ base) : setString s base = none := by
-  rcases (scan_body base (scanSign s).2).2 h with h0 | h1
+    (h : (StdNum.scanSign s).2 = [] ∨ ∃ c ∈ (StdNum.scanSign s).2, digitVal base c ≥ base) : setString s base = none := by
+  rcases (scan_body base (StdNum.scanSign s).2).2 h with h0 | h1
   · simp [setString, h0]
   · simp only [setString]
     split
     · rfl
-    · have : (scanDigits base (scanSign s).2 0 0).2.2.isEmpty = false := by
-        cases hx : (scanDigits base (scanSign s).2 0 0).2.2 with
+    · have : (scanDigits base (StdNum.scanSign s).2 0 0).2.2.isEmpty = false := by
+        cases hx : (scanDigits base (StdNum.scanSign s).2 0 0).2.2 with
         | nil => exact absurd hx h1
         | cons a t => rfl
       simp [this]
@@ -372,8 +385,13 @@ theorem join_null_member (L : Lib) (sep : String) (xs ys : List String) :
   simp [joinImpl, joinCollect, hj, Value.whollyKnown, Payload.whollyKnown, hw, Value.isNull, Payload.isNull,
     Payload.unmark1]
 
-/-- `glue_total`: on known string arguments the cty layer of these functions adds no
-panic, whatever the libraries answer. -/
+/-- `glue_total`: on known, unmarked, non-null string arguments (what `Function.Call` hands to
+these `Impl`s: none of their parameters allows null, unknown or marked values) the cty layer of
+these functions adds no panic, whatever the libraries answer.  The functions that index or slice
+a library answer, or take other argument types, have their own totality theorems:
+`regex_never_panics` and `csvdecode_never_panics` (under a probed law about the library),
+`format_never_panics`, `formatlist_never_panics`, `indent_never_panics`, `substr_never_panics`.
+`regexall` and `join`/`split` on non-string lists are covered by correspondence only. -/
 theorem glue_total (L : Lib) (a b c : String) :
     (upperImpl L [sv a]).isPanic = false ∧ (lowerImpl L [sv a]).isPanic = false ∧
     (titleImpl L [sv a]).isPanic = false ∧ (trimSpaceImpl L [sv a]).isPanic = false ∧
@@ -411,31 +429,83 @@ theorem indent_negative_is_error (nfc : String → String) (spaces : Value) (s :
     indentImpl nfc [spaces, sv s] = .err "the number of spaces must not be negative" := by
   simp [indentImpl, hk, h0]
 
-/-- … so `glue_total` holds for `indent` too: no panic for any count. -/
+/-- … so `glue_total` holds for `indent` too: no panic for any count, however large
+(since /repo d4d90b0 the padding is not built when there is no line break, and a result
+beyond `math.MaxInt32` bytes is refused before `strings.Repeat` is reached). -/
 theorem indent_never_panics (nfc : String → String) (x : Num) (s : String) :
     (indentImpl nfc [numVal x, sv s]).isPanic = false := by
-  have hf : (∃ k, fromCtyInt (numVal x) = .ok k) ∨ (∃ c, fromCtyInt (numVal x) = .err c) := by
-    simp only [fromCtyInt, numVal, Gocty.fromNumInt, Gocty.intMinMax]
-    split
-    · right; exact ⟨_, rfl⟩
-    · split
-      · right; exact ⟨_, rfl⟩
-      · left; exact ⟨_, rfl⟩
-  rcases hf with ⟨k, hk⟩ | ⟨c, hk⟩
+  rcases fromCtyInt_cases x with ⟨k, hk⟩ | ⟨c, hk⟩
   · simp only [indentImpl, arg0, arg1, Res.bind_ok, hk]
     split
     · rfl
     · simp only [asString_sv, Res.bind_ok]
-      split <;> rfl
+      split
+      · rfl
+      · split <;> rfl
   · simp [indentImpl, hk, Res.isPanic]
 
-/-- `indent` inserts exactly `k` spaces after every newline and changes nothing else. -/
+/-- `indent` inserts exactly `k` spaces after every newline (`indentChars`) — for EVERY count
+`k ≥ 0` for which the result (`len(s) + k · lines` bytes) is not longer than `math.MaxInt32`;
+no cap of the model's own. -/
 theorem indent_structure (nfc : String → String) (spaces : Value) (s : String) (k : Int)
-    (hk : fromCtyInt spaces = .ok k) (h0 : 0 ≤ k) (hm : k ≤ indentMax) :
+    (hk : fromCtyInt spaces = .ok k) (h0 : 0 ≤ k)
+    (hfit : s.utf8ByteSize + k.toNat * countNewlines s.toList ≤ 2147483647) :
     indentImpl nfc [spaces, sv s] = .ok (stringVal nfc (String.ofList (indentChars k.toNat s.toList))) := by
   have h1 : ¬ k < 0 := by omega
-  have h2 : ¬ k > indentMax := by omega
-  simp [indentImpl, hk, h1, h2]
+  simp only [indentImpl, arg0, arg1, Res.bind_ok, hk, h1, if_false, asString_sv]
+  split
+  · rename_i hl
+    have hl' : countNewlines s.toList = 0 := by simpa using hl
+    rw [indentChars_no_newline _ _ hl']
+    simp [String.ofList_toList]
+  · rename_i hl
+    have hl' : 0 < countNewlines s.toList := by
+      have : countNewlines s.toList ≠ 0 := by simpa using hl
+      omega
+    have h2 : ¬ k > Int.tdiv (goMaxInt32 - (s.utf8ByteSize : Int)) (countNewlines s.toList : Int) := by
+      have hk' : k = (k.toNat : Int) := by omega
+      have hnn : (0 : Int) ≤ goMaxInt32 - (s.utf8ByteSize : Int) := by simp only [goMaxInt32]; omega
+      rw [Int.tdiv_eq_ediv_of_nonneg hnn]
+      have : (k.toNat : Int) * (countNewlines s.toList : Int) ≤ goMaxInt32 - (s.utf8ByteSize : Int) := by
+        have : ((k.toNat * countNewlines s.toList : Nat) : Int) ≤ 2147483647 - (s.utf8ByteSize : Int) := by omega
+        simpa [goMaxInt32] using this
+      have := Int.le_ediv_of_mul_le (by omega : (0 : Int) < (countNewlines s.toList : Int)) this
+      omega
+    simp [h2]
+
+/-- … a result that would be longer is refused with an error (not attempted) … -/
+theorem indent_too_long_is_error (nfc : String → String) (spaces : Value) (s : String) (k : Int)
+    (hk : fromCtyInt spaces = .ok k) (h0 : 0 ≤ k) (hl : 0 < countNewlines s.toList)
+    (hsz : s.utf8ByteSize ≤ 2147483647)
+    (hbig : s.utf8ByteSize + k.toNat * countNewlines s.toList > 2147483647) :
+    indentImpl nfc [spaces, sv s] =
+      .err "the number of spaces is too large: the resulting string would be too long" := by
+  have h1 : ¬ k < 0 := by omega
+  have hl' : (countNewlines s.toList == 0) = false := by simp; omega
+  have h2 : k > Int.tdiv (goMaxInt32 - (s.utf8ByteSize : Int)) (countNewlines s.toList : Int) := by
+    have hnn : (0 : Int) ≤ goMaxInt32 - (s.utf8ByteSize : Int) := by simp only [goMaxInt32]; omega
+    rw [Int.tdiv_eq_ediv_of_nonneg hnn]
+    have hk' : k = (k.toNat : Int) := by omega
+    have hlt : goMaxInt32 - (s.utf8ByteSize : Int) < (k.toNat : Int) * (countNewlines s.toList : Int) := by
+      have : (2147483647 : Int) - (s.utf8ByteSize : Int) < ((k.toNat * countNewlines s.toList : Nat) : Int) := by omega
+      simpa [goMaxInt32] using this
+    have := Int.ediv_lt_of_lt_mul (by omega : (0 : Int) < (countNewlines s.toList : Int)) hlt
+    omega
+  have hl2 : ¬ countNewlines s.toList = 0 := by omega
+  simp [indentImpl, hk, h1, hl2, h2]
+
+/-- … and a string without a line break comes back unchanged for ANY count ≥ 0 (2^62 included). -/
+theorem indent_no_line_break (nfc : String → String) (spaces : Value) (s : String) (k : Int)
+    (hk : fromCtyInt spaces = .ok k) (h0 : 0 ≤ k) (hl : countNewlines s.toList = 0) :
+    indentImpl nfc [spaces, sv s] = .ok (stringVal nfc s) := by
+  have h1 : ¬ k < 0 := by omega
+  simp [indentImpl, hk, h1, hl]
+
+/-- "changes nothing else": deleting the `k` characters after every newline of the indented
+text gives the original back, and the text grew by exactly `k` per line break. -/
+theorem indent_changes_nothing_else (k : Nat) (cs : List Char) :
+    unindentChars k (indentChars k cs) = cs ∧ (indentChars k cs).length = cs.length + k * countNewlines cs :=
+  ⟨unindent_indent k cs, indentChars_length k cs⟩
 
 /-- Result types: the regex family returns a string, a tuple of strings or an object
 of strings according to the capture groups of the pattern; mixing named and
@@ -481,6 +551,20 @@ theorem csvdecode_result_type (L : Lib) (s : String) (v : Value) (h : csvDecodeI
           | panic w => rw [hx] at h; cases h
           | unmodelled => rw [hx] at h; cases h
 
+/-- `glue_total` for `csvdecode`: `headers[i]` is never out of range, given what csv.Reader
+promises — with `FieldsPerRecord = n` every delivered record has `n` fields (probed on the real
+library on every run: `csv-fields-per-record`). -/
+theorem csvdecode_never_panics (L : Lib) (s : String)
+    (hlaw : ∀ n, ∀ r ∈ (L.csvAll s n).records, r.length = n) :
+    (csvDecodeImpl L [sv s]).isPanic = false :=
+  csvDecodeImpl_no_panic L s hlaw
+
+/-- `glue_total` for `substr`: no panic for any string and any two numbers (fractions and
+numbers outside `int` are errors of the argument conversion). -/
+theorem substr_never_panics (nfc : String → String) (clusters : String → List String) (s : String) (x y : Num) :
+    (substrImpl nfc clusters [sv s, numVal x, numVal y]).isPanic = false :=
+  substrImpl_no_panic nfc clusters s x y
+
 /-! ## format: verb scanner, argument bookkeeping, width / precision on clusters -/
 
 /-- Width is measured in grapheme clusters: a field at least as wide as the width is
@@ -518,6 +602,437 @@ theorem format_scanner_examples :
     scanVerb ['[', '1', 'd'] 0 1 = none ∧ scanVerb ['$'] 0 1 = none :=
   ⟨rfl, rfl, rfl, rfl, rfl, rfl, rfl, rfl⟩
 
+/-- **The scanner is the documented grammar** `'%' flags* width? ('.' digit*)? ('[' num ']')? letter`
+(`num = [1-9][0-9]*`, flags `0 # - + space`): `scanVerb` accepts `cs`, leaving `rest`, IFF `cs`
+is the spelling of a sentence `g` of that grammar followed by `rest`; the verb it returns is
+the one `g` denotes.  (Everything else — an unknown character, a premature end, `[0]`,
+a width with a leading zero that is not a flag — is "invalid format string".) -/
+theorem format_scanner_is_the_grammar (cs : List Char) (offset nextArg : Nat) (v : Verb) (rest : List Char) :
+    scanVerb cs offset nextArg = some (v, rest) ↔
+      ∃ g : VerbSyn, g.wf = true ∧ cs = g.text ++ rest ∧ v = g.verb offset nextArg :=
+  scanVerb_iff cs offset nextArg v rest
+
+/-- … with the parsed fields equal to the denoted numbers: width / precision / `[n]` are the
+saturating decimal values of their digit strings, an absent `[n]` means "the next argument",
+`.` without digits is precision 0, the raw text is the sentence itself … -/
+theorem format_parsed_fields (g : VerbSyn) (offset nextArg : Nat) :
+    (g.verb offset nextArg).hasWidth = g.width.isSome ∧
+    (g.verb offset nextArg).width = (g.width.map satNum).getD 0 ∧
+    (g.verb offset nextArg).hasPrec = g.prec.isSome ∧
+    (g.verb offset nextArg).prec = (g.prec.map satNum).getD 0 ∧
+    (g.verb offset nextArg).argNum = (g.idx.map satNum).getD nextArg ∧
+    (g.verb offset nextArg).mode = g.mode ∧
+    (g.verb offset nextArg).offset = offset ∧
+    (g.verb offset nextArg).raw = '%' :: g.text :=
+  verb_fields g offset nextArg
+
+/-- … and each flag set iff its character occurs among the flags. -/
+theorem format_parsed_flags (g : VerbSyn) (hg : g.wf = true) (offset nextArg : Nat) :
+    (g.verb offset nextArg).zero = g.flags.contains '0' ∧ (g.verb offset nextArg).sharp = g.flags.contains '#' ∧
+    (g.verb offset nextArg).minus = g.flags.contains '-' ∧ (g.verb offset nextArg).plus = g.flags.contains '+' ∧
+    (g.verb offset nextArg).space = g.flags.contains ' ' :=
+  verb_flags g hg offset nextArg
+
+/-- The numbers of a verb never wrap around (`formatArgNumAppendDigit`, /repo 721dbdb 84cbc5e):
+a digit string denotes its decimal value below 9223372036854775800 and the largest `int`
+from there on. -/
+theorem format_numbers_saturate (ds : List Char) (hd : ∀ c ∈ ds, isDigit c = true) :
+    satNum ds = if decVal ds < 9223372036854775800 then decVal ds else 9223372036854775807 :=
+  satNum_eq ds hd
+
+/-- **An explicit argument number beyond the arguments given is an error, whatever its
+size** (the defect repaired by /repo 721dbdb: `%[18446744073709551617]d` used to wrap
+around to argument 1): at a verb `%…[i]…` whose index denotes more than `len(args)`, the
+whole call ends with "not enough arguments".  `args.length < maxInt` holds of every Go slice. -/
+theorem format_explicit_index_beyond_count_is_error (L : Lib) (args : List Value) (fuel : Nat) (g : VerbSyn)
+    (hg : g.wf = true) (i : List Char) (hi : g.idx = some i) (hlen : args.length < 9223372036854775807)
+    (hb : args.length < decVal i) (rest : List Char) (offset nextArg highest : Nat) (buf : String) :
+    fsmLoop L args (fuel + 1) ('%' :: (g.text ++ rest)) offset nextArg highest buf = .err "not enough arguments" := by
+  rw [fsmLoop_verb L args fuel g hg rest, formatAppend_index_beyond L g hg offset nextArg i hi args hlen hb]
+
+/-- The same for a verb without `[n]` when the running argument number is beyond the arguments. -/
+theorem format_not_enough_arguments_implicit (L : Lib) (args : List Value) (fuel : Nat) (g : VerbSyn)
+    (hg : g.wf = true) (hi : g.idx = none) (rest : List Char) (offset nextArg highest : Nat) (buf : String)
+    (hb : args.length < nextArg) :
+    fsmLoop L args (fuel + 1) ('%' :: (g.text ++ rest)) offset nextArg highest buf = .err "not enough arguments" := by
+  rw [fsmLoop_verb L args fuel g hg rest, formatAppend_missing]
+  rw [(verb_fields g offset nextArg).2.2.2.2.1, hi]
+  simpa using hb
+
+/-- **Width and precision beyond 1000000 are an error, whatever their size** (/repo 84cbc5e;
+before it `%18446744073709551617d` wrapped around to width 1 and `%9999999999d` ran out of
+memory): when the verb's argument exists, a width whose digits denote more than 1000000 ends
+the call with an error, and so does such a precision. -/
+theorem format_width_precision_limit (L : Lib) (args : List Value) (g : VerbSyn) (hg : g.wf = true)
+    (offset nextArg : Nat) (a : Value) (h0 : (g.verb offset nextArg).argNum ≠ 0)
+    (ha : args[(g.verb offset nextArg).argNum - 1]? = some a) :
+    (∀ w, g.width = some w → 1000000 < decVal w →
+      formatAppend L (g.verb offset nextArg) args = .err "unsupported width") ∧
+    (∀ p, g.width = none → g.prec = some p → 1000000 < decVal p →
+      formatAppend L (g.verb offset nextArg) args = .err "unsupported precision") := by
+  simp only [VerbSyn.wf, Bool.and_eq_true] at hg
+  constructor
+  · intro w hw hbig
+    have hwf : wfNumOpt g.width = true := hg.1.1.1.2
+    rw [hw] at hwf
+    refine formatAppend_width_limit L _ args a h0 ha ?_ ?_
+    · rw [(verb_fields g offset nextArg).1, hw]; rfl
+    · rw [(verb_fields g offset nextArg).2.1, hw]
+      have := satNum_ge w (isNum_digits hwf) 1000001 hbig (by decide)
+      simp only [Option.map_some, Option.getD_some, formatMaxWidthPrec]; omega
+  · intro p hw hp hbig
+    have hpf : wfDigitsOpt g.prec = true := hg.1.1.2
+    rw [hp] at hpf
+    have hpd : ∀ d ∈ p, isDigit d = true := by simpa [wfDigitsOpt, List.all_eq_true] using hpf
+    refine formatAppend_prec_limit L _ args a h0 ha ?_ ?_ ?_
+    · left; rw [(verb_fields g offset nextArg).1, hw]; rfl
+    · rw [(verb_fields g offset nextArg).2.2.1, hp]; rfl
+    · rw [(verb_fields g offset nextArg).2.2.2.1, hp]
+      have := satNum_ge p hpd 1000001 hbig (by decide)
+      simp only [Option.map_some, Option.getD_some, formatMaxWidthPrec]; omega
+
+/-- **Per-verb dispatch, numeric verbs**: what `format` asks Go's fmt. `%b %d %o %x %X` on a
+whole number: `fmt.Sprintf(<the verb without its [n]>, *big.Int)`; on a fraction: the "an integer
+is required" error. `%e %E %f %g %G`: `fmt.Sprintf(<the verb without its [n]>, *big.Float)`.
+(That fmt itself is right is outside any proof: it is the reference of the property.) -/
+theorem format_numeric_dispatch (L : Lib) (v : Verb) (args : List Value) (x : Num) (h0 : v.argNum ≠ 0)
+    (ha : args[v.argNum - 1]? = some (numVal x))
+    (hw : (v.hasWidth && decide (v.width > formatMaxWidthPrec)) = false)
+    (hp : (v.hasPrec && decide (v.prec > formatMaxWidthPrec)) = false) :
+    ((v.mode = 'b' ∨ v.mode = 'd' ∨ v.mode = 'o' ∨ v.mode = 'x' ∨ v.mode = 'X') →
+      (∀ i, (x.isInt || x.isZero) = true → x.truncInt = some i →
+        formatAppend L v args = .ok (L.fmtInt (String.ofList (stripIndex v.raw)) i)) ∧
+      ((x.isInt || x.isZero) = false → formatAppend L v args = .err "an integer is required")) ∧
+    ((v.mode = 'e' ∨ v.mode = 'E' ∨ v.mode = 'f' ∨ v.mode = 'g' ∨ v.mode = 'G') →
+      formatAppend L v args = .ok (L.fmtFloat (String.ofList (stripIndex v.raw)) x)) :=
+  ⟨fun hm => formatAppend_integer L v args x h0 ha hw hp hm, fun hm => formatAppend_float L v args x h0 ha hw hp hm⟩
+
+/-- … where "the verb without its `[n]`" is exact: `formatStripIndexSegment` of a scanned verb is
+the same sentence (`%`, flags, width, precision, letter) with the index segment removed, and
+the sentence itself when it has none. -/
+theorem format_strip_index_segment (g : VerbSyn) (hg : g.wf = true) (offset nextArg : Nat) :
+    stripIndex (g.verb offset nextArg).raw = g.head ++ [g.mode] :=
+  stripIndex_verb g hg offset nextArg
+
+/-- **Per-verb dispatch, string verbs**: `%s` cuts the string to the precision and pads it to the
+width, both counted in grapheme clusters; `%q` JSON-quotes the cut, re-normalised string and
+then pads. -/
+theorem format_string_dispatch (L : Lib) (v : Verb) (args : List Value) (s : String) (h0 : v.argNum ≠ 0)
+    (ha : args[v.argNum - 1]? = some (sv s))
+    (hw : (v.hasWidth && decide (v.width > formatMaxWidthPrec)) = false)
+    (hp : (v.hasPrec && decide (v.prec > formatMaxWidthPrec)) = false) :
+    (v.mode = 's' → formatAppend L v args = .ok (padWidth L.clusters v (precCut L.clusters v s))) ∧
+    (v.mode = 'q' → formatAppend L v args =
+      .ok (padWidth L.clusters v (L.jsonStr (L.nfc (precCut L.clusters v s))))) :=
+  formatAppend_string L v args s h0 ha hw hp
+
+/-- **Argument bookkeeping.** At `%` + a sentence of the grammar the verb is rendered at once;
+its error ends the call (so an error of an earlier verb wins over a syntax error further
+right); otherwise the next implicit argument number becomes the verb's own number + 1 — `[n]`
+overrides the running number and "subsequent verbs without an explicit index proceed with
+n+1" — and the highest number used is remembered for the final "too many arguments" test. -/
+theorem format_argument_bookkeeping (L : Lib) (args : List Value) (fuel : Nat) (g : VerbSyn) (hg : g.wf = true)
+    (rest : List Char) (offset nextArg highest : Nat) (buf : String) :
+    fsmLoop L args (fuel + 1) ('%' :: (g.text ++ rest)) offset nextArg highest buf =
+      (match formatAppend L (g.verb offset nextArg) args with
+       | .ok s => fsmLoop L args fuel rest (offset + (g.text.length + 1)) ((g.verb offset nextArg).argNum + 1)
+           (max highest (g.verb offset nextArg).argNum) (buf ++ s)
+       | .err e => .err e
+       | .panic w => .panic w
+       | .unmodelled => .unmodelled) :=
+  fsmLoop_verb L args fuel g hg rest offset nextArg highest buf
+
+/-- Literal characters are copied, `%%` is a percent sign that consumes no argument, and at the
+end arguments beyond the highest number used are the "too many arguments" error. -/
+theorem format_literals_and_end (L : Lib) (args : List Value) (fuel : Nat) (rest : List Char)
+    (offset nextArg highest : Nat) (buf : String) :
+    (∀ c, c ≠ '%' → fsmLoop L args (fuel + 1) (c :: rest) offset nextArg highest buf =
+      fsmLoop L args fuel rest (offset + c.utf8Size) nextArg highest (buf.push c)) ∧
+    fsmLoop L args (fuel + 1) ('%' :: '%' :: rest) offset nextArg highest buf =
+      fsmLoop L args fuel rest (offset + 2) nextArg highest (buf.push '%') ∧
+    fsmLoop L args (fuel + 1) [] offset nextArg highest buf =
+      (if highest < args.length then .err "too many arguments" else .ok buf) :=
+  ⟨fun c hc => fsmLoop_literal L args fuel c hc rest offset nextArg highest buf,
+   fsmLoop_percent L args fuel rest offset nextArg highest buf, fsmLoop_end L args fuel offset nextArg highest buf⟩
+
+/-- The fuel of the model's loop never runs out (it is only there to make the recursion
+structural): any two fuels above the length of the format string give the same result, so
+`.unmodelled` is never returned for lack of fuel. -/
+theorem format_fuel_is_immaterial (L : Lib) (args : List Value) (fuel fuel' : Nat) (cs : List Char)
+    (offset nextArg highest : Nat) (buf : String) (h : cs.length < fuel) (h' : cs.length < fuel') :
+    fsmLoop L args fuel cs offset nextArg highest buf = fsmLoop L args fuel' cs offset nextArg highest buf :=
+  fsmLoop_fuel L args fuel fuel' cs offset nextArg highest buf h h'
+
+/-- `format` never panics — for ANY format string and ANY arguments: the `args[argIdx]` of
+`formatAppend` is never reached with index −1 (scanned argument numbers are ≥ 1) and an index
+beyond the arguments is caught first. -/
+theorem format_never_panics (L : Lib) (f : String) (args : List Value) :
+    (formatImpl L (sv f :: args)).isPanic = false := by
+  simp only [formatImpl, arg0, Res.bind_ok, List.drop_succ_cons, List.drop_zero]
+  split
+  · rfl
+  · simp only [asString_sv, Res.bind_ok]
+    have h := fsmLoop_no_panic L args (f.length + 1) f.toList 0 1 0 "" (Nat.le_refl 1)
+    cases hx : fsmLoop L args (f.length + 1) f.toList 0 1 0 "" with
+    | ok s => rfl
+    | err c => rfl
+    | panic w => rw [hx] at h; simp [Res.isPanic] at h
+    | unmodelled => rfl
+
+/-! ## jsonencode / jsondecode (on top of C15) -/
+
+/-- `jsonencode` on a wholly known value IS C15's `Marshal(val, val.Type())` (null → `null`), and
+`jsondecode` IS C15's implied type + `Unmarshal` with it (`simpleUnmarshal`): every C15 theorem
+about those functions is a theorem about the two stdlib functions. -/
+theorem json_functions_are_the_codec (env : JsonVal.JEnv) (v : Value) (d : Json) :
+    (v.isNull = false → jsonEncodeTree env v = JsonVal.marshal env v v.ty) ∧
+    (v.isNull = true → jsonEncodeTree env v = .ok .null) ∧
+    jsonDecodeTree env d = JsonVal.simpleUnmarshal env d := by
+  refine ⟨fun h => by simp [jsonEncodeTree, h], fun h => by simp [jsonEncodeTree, h], rfl⟩
+
+/-- **Encoding inverts decoding**: for every document with distinct ascending key normal forms
+and representable numbers, `jsondecode` returns a value of the document's structural type and
+`jsonencode` of it gives the document back (up to key / string normal form and number spelling). -/
+theorem jsonencode_inverts_jsondecode (env : JsonVal.JEnv) (d : Json) (h : JsonVal.docOK env d = true) :
+    ∃ v, jsonDecodeTree env d = .ok v ∧ v.ty = JsonVal.structTy env.norm d ∧
+      (v.isNull = false → ∃ d', jsonEncodeTree env v = .ok d' ∧ JsonVal.jsonNormEq env.norm d' d = true) :=
+  StdNum.jsonencode_inverts_jsondecode env d h
+
+/-- THE FULL STATEMENT "decoding is the inverse of encoding" through the two stdlib functions:
+`jsondecode(jsonencode(v))` has `v`'s type.  FALSE — and documented to be ("applying JSONDecode to
+the result of JSONEncode may not produce an identically-typed result", json.go): `jsondecode`
+works with the IMPLIED type, so a list comes back as a tuple and a map as an object.  Not a
+finding. -/
+def jsondecode_inverts_jsonencode : Prop :=
+  ∀ (env : JsonVal.JEnv) (v : Value), JsonVal.rtHyps env v v.ty = true → JsonVal.setFree v.ty = true →
+    jsonRoundTripTyped env v = true
+
+theorem jsondecode_inverts_jsonencode_counterexample : ¬ jsondecode_inverts_jsonencode := fun h =>
+  absurd (h C15.env0 ⟨.list .string, .seq [.s "a"]⟩ (by decide +kernel) (by decide)) (by decide +kernel)
+
+/-- The strongest version that holds: decoding WITH THE VALUE'S OWN TYPE (`json.Unmarshal(buf,
+v.Type())`, what a caller who knows the type does) inverts `jsonencode` for every set-free wholly
+known value, nulls and empty collections at any depth included (C15.mirror). -/
+theorem jsondecode_inverts_jsonencode_partial (env : JsonVal.JEnv) (v : Value)
+    (h : JsonVal.rtHyps env v v.ty = true) (hs : JsonVal.setFree v.ty = true) (hn : v.isNull = false) :
+    ∃ j v', jsonEncodeTree env v = .ok j ∧ JsonVal.unmarshalTop env j v.ty = .ok v' ∧ v'.ty = v.ty ∧
+      JsonVal.sameP v'.v v.v = true :=
+  unmarshal_own_type_inverts_jsonencode env v h hs hn
+
+/-! ## regex -/
+
+/-- **`regex` never panics** although it SLICES the subject by the index lists of the regexp
+package (`str[idx[2i]:idx[2i+1]]`) and INDEXES those lists: under the shape regexp documents for
+`FindStringSubmatchIndex` (`IdxOK`: one pair per group incl. the whole match; every pair
+(−1, −1) or 0 ≤ a ≤ b ≤ len(str); the whole match present) — probed on the real library on every
+run (`regexp-submatch-index-shape`) — no slice and no index expression of `regexPatternResult`
+is out of range, for every pattern and subject. -/
+theorem regex_never_panics (L : Lib) (pat str : String)
+    (hk : ∀ names idxs, L.regexCompile pat = some names → L.regexFind pat str = some idxs →
+      IdxOK str.utf8ByteSize names.length idxs) :
+    (regexImpl L [sv pat, sv str]).isPanic = false :=
+  regexImpl_no_panic L pat str hk
+
+/-- Values of `regex`: without capture groups the result is the matched part of the subject
+(`str[idx[0]:idx[1]]`, re-normalised); an invalid pattern and "no match" are the documented errors. -/
+theorem regex_value_and_errors (L : Lib) (pat str : String) :
+    (∀ idxs a b m, L.regexCompile pat = some [] → L.regexFind pat str = some idxs → idxs[0]? = some a →
+      idxs[1]? = some b → sliceBytes str a b = .ok m → regexImpl L [sv pat, sv str] = .ok (stringVal L.nfc m)) ∧
+    (L.regexCompile pat = none → regexImpl L [sv pat, sv str] = .err "invalid regexp pattern") ∧
+    (∀ names t, L.regexCompile pat = some names → regexResultType names = .ok t → L.regexFind pat str = none →
+      regexImpl L [sv pat, sv str] = .err "pattern did not match any part of the given string") :=
+  ⟨fun idxs a b m hc hf ha hb hs => regexImpl_whole_match L pat str idxs a b m hc hf ha hb hs,
+   (regexImpl_errors L pat str).1, (regexImpl_errors L pat str).2⟩
+
+/-! ## formatdate -/
+
+/-- The tokenizer of `formatdate` (`splitDateFormat`) loses nothing: the tokens, concatenated,
+are the format string (the fuel the model passes always suffices) … -/
+theorem formatdate_tokenizer_loses_nothing (format : String) :
+    (tokenize (format.length + 1) format.toList).flatten = format.toList :=
+  tokenize_flatten _ _ (by rw [String.length_toList]; omega)
+
+/-- … and every token is a quoted literal (starts with `'`), a run of ONE letter (a verb), or
+literal text holding neither a letter nor a quote after its first character. -/
+theorem formatdate_token_kinds (c : Char) (rest : List Char) :
+    (c = '\'') ∨
+    (isVerbStart c = true ∧ ∃ k, (nextToken (c :: rest)).1 = List.replicate (k + 1) c) ∨
+    (∀ d ∈ (nextToken (c :: rest)).1.drop 1, (d == '\'' || isVerbStart d) = false) :=
+  nextToken_kind c rest
+
+/-- **12-hour clock** (a seeded change made noon "AM"): for every hour 0…23, `H`/`HH` show
+the clock-face hour — 12 at midnight and at noon, `hour mod 12` otherwise — and `AA`/`aa` say
+AM exactly before noon and PM from 12:00 on. -/
+theorem formatdate_clock12 (t : Time) (h24 : t.hour < 24) :
+    verbText t 'H' 1 = .ok (toString (hour12 t.hour)) ∧ verbText t 'H' 2 = .ok (pad2 (hour12 t.hour)) ∧
+    verbText t 'A' 2 = .ok (if t.hour < 12 then "AM" else "PM") ∧
+    verbText t 'a' 2 = .ok (if t.hour < 12 then "am" else "pm") ∧
+    1 ≤ hour12 t.hour ∧ hour12 t.hour ≤ 12 ∧ hour12 t.hour % 12 = t.hour % 12 := by
+  obtain ⟨h1, h2, h3, h4⟩ := clock12 t h24
+  exact ⟨h1, h2, h3, h4, hour12_range t.hour⟩
+
+/-- **Zone offsets with minutes** (a seeded change lost the sign of the minutes of a negative
+offset): `ZZZZ` / `ZZZZZ` render an offset of ±(h hours, m minutes) as sign, two-digit hours,
+(colon,) two-digit minutes — `-03:30` stays `-03:30`. -/
+theorem formatdate_zone_offsets (neg : Bool) (h m : Nat) (hm : m < 60)
+    (hnz : neg = true → 0 < h * 3600 + m * 60) (colon : Bool) :
+    zoneNum (if neg then -((h * 3600 + m * 60 : Nat) : Int) else ((h * 3600 + m * 60 : Nat) : Int)) colon =
+      (if neg then "-" else "+") ++ pad2 h ++ (if colon then ":" else "") ++ pad2 m :=
+  zoneNum_spec neg h m hm hnz colon
+
+/-- The verbs render the field they name (on the parsed timestamp the `time` package
+delivered), two-digit fields being exactly two decimal digits. -/
+theorem formatdate_verbs (t : Time) :
+    (verbText t 'Y' 4 = .ok (pad4 t.year) ∧ verbText t 'Y' 2 = .ok (pad2 (t.year % 100)) ∧
+     verbText t 'M' 2 = .ok (pad2 t.month) ∧ verbText t 'M' 1 = .ok (toString t.month) ∧
+     verbText t 'M' 4 = .ok (monthName t.month) ∧
+     verbText t 'D' 2 = .ok (pad2 t.day) ∧ verbText t 'D' 1 = .ok (toString t.day) ∧
+     verbText t 'E' 4 = .ok (dayName t.weekday) ∧
+     verbText t 'h' 2 = .ok (pad2 t.hour) ∧ verbText t 'h' 1 = .ok (toString t.hour) ∧
+     verbText t 'm' 2 = .ok (pad2 t.minute) ∧ verbText t 'm' 1 = .ok (toString t.minute) ∧
+     verbText t 's' 2 = .ok (pad2 t.second) ∧ verbText t 's' 1 = .ok (toString t.second) ∧
+     verbText t 'Z' 4 = .ok (zoneNum t.offset false) ∧ verbText t 'Z' 5 = .ok (zoneNum t.offset true) ∧
+     verbText t 'Z' 1 = .ok (if t.offset == 0 then "Z" else zoneNum t.offset true)) ∧
+    (∀ n, n < 100 → (pad2 n).toList = [Nat.digitChar (n / 10), Nat.digitChar (n % 10)]) :=
+  ⟨verb_table t, pad2_spec⟩
+
+/-- A letter that is no verb is an error, and so is a verb repeated an unsupported number of
+times — `formatdate` fails on a bad token, it does not skip it. -/
+theorem formatdate_bad_verbs (t : Time) :
+    (∀ c n, (c ≠ 'Y' ∧ c ≠ 'M' ∧ c ≠ 'D' ∧ c ≠ 'E' ∧ c ≠ 'h' ∧ c ≠ 'H' ∧ c ≠ 'A' ∧ c ≠ 'a' ∧ c ≠ 'm' ∧ c ≠ 's' ∧
+        c ≠ 'Z') → verbText t c n = .err "invalid date format verb") ∧
+    (verbText t 'Y' 3 = .err "year" ∧ verbText t 'Y' 1 = .err "year" ∧ verbText t 'M' 5 = .err "month" ∧
+     verbText t 'D' 3 = .err "day" ∧ verbText t 'E' 2 = .err "weekday" ∧ verbText t 'h' 3 = .err "hour" ∧
+     verbText t 'H' 3 = .err "hour" ∧ verbText t 'A' 1 = .err "AA" ∧ verbText t 'a' 3 = .err "aa" ∧
+     verbText t 'm' 3 = .err "minute" ∧ verbText t 's' 3 = .err "second" ∧ verbText t 'Z' 2 = .err "timezone") :=
+  ⟨fun c n h => verbText_unknown t c n h, verb_bad_counts t⟩
+
+/-- A timestamp the strict RFC 3339 parser refuses is an error of `formatdate` and of `timeadd`. -/
+theorem date_bad_timestamp (L : Lib) (a b : String) (h : L.parseTimestamp b = none) :
+    formatDateImpl L [sv a, sv b] = .err "not a valid RFC3339 timestamp" ∧
+    timeAddImpl L [sv b, sv a] = .err "not a valid RFC3339 timestamp" := by
+  simp [formatDateImpl, timeAddImpl, h]
+
+/-! ## formatlist -/
+
+/-- the arguments the model of `formatlist` speaks about: wholly known, unmarked, sets only of
+primitives (their iteration order is `setRules.Less`) -/
+def FlKnown (rest : List Value) : Prop :=
+  (rest.any fun a => !a.whollyKnown || a.containsMarked || !flSetOK a) = false
+
+/-- `format` on wholly known arguments is `formatFSM` on the format string + `cty.StringVal` … -/
+theorem format_is_formatFSM_on_known (L : Lib) (f : String) (row : List Value)
+    (hk : ∀ a ∈ row, a.whollyKnown = true) :
+    formatImpl L (sv f :: row) =
+      (match rowRes L f row with
+       | .ok s => .ok (stringVal L.nfc s)
+       | .err e => .err e
+       | .panic w => .panic w
+       | .unmodelled => .unmodelled) :=
+  formatImpl_known L f row hk
+
+/-- … and **`formatlist` is the element-wise `format`**: with `n` the common length of the
+iterated arguments (non-null lists, sets, tuples; `n = 1` when there is none), the result is
+the list of `formatFSM(f, row i)` for `i = 0 … n−1`, where row `i` holds the i-th member of
+every iterated argument and every other argument itself; the first row that fails ends the
+call with an error. -/
+theorem formatlist_is_pointwise_format (L : Lib) (f : String) (rest : List Value) (it : Option Nat)
+    (hk : FlKnown rest) (hne : rest ≠ []) (hl : flLen rest none = .ok it) (h0 : it ≠ some 0) :
+    formatListImpl L (sv f :: rest) =
+      (match collectRows L ((List.range (it.getD 1)).map fun i => rowRes L f (flArgsAt rest i)) with
+       | .ok ps => .ok ⟨.list .string, .seq ps⟩
+       | .err e => .err e
+       | .panic w => .panic w
+       | .unmodelled => .unmodelled) := by
+  have hlen : (rest.length == 0) = false := by
+    cases rest with
+    | nil => exact absurd rfl hne
+    | cons a t => rfl
+  have h0' : (it == some 0) = false := by simpa using h0
+  unfold FlKnown at hk
+  simp only [formatListImpl, arg0, Res.bind_ok, List.drop_succ_cons, List.drop_zero, hk, hlen, Bool.false_eq_true,
+    if_false, asString_sv, hl, h0', flIter_eq]
+  cases collectRows L ((List.range (it.getD 1)).map fun i => rowRes L f (flArgsAt rest i)) <;> rfl
+
+/-- **The length rule**: two iterated arguments of different lengths are the documented error … -/
+theorem formatlist_inconsistent_lengths_is_error (L : Lib) (f : String) (rest : List Value) (hk : FlKnown rest)
+    (a b : Value) (ha : a ∈ rest) (hb : b ∈ rest) (x y : List Value) (hx : flSeq a = some x) (hy : flSeq b = some y)
+    (hne : x.length ≠ y.length) :
+    formatListImpl L (sv f :: rest) = .err "inconsistent argument lengths" := by
+  have hlen : (rest.length == 0) = false := by
+    cases rest with
+    | nil => cases ha
+    | cons a t => rfl
+  unfold FlKnown at hk
+  simp only [formatListImpl, arg0, Res.bind_ok, List.drop_succ_cons, List.drop_zero, hk, hlen, Bool.false_eq_true,
+    if_false, asString_sv, flLen_inconsistent rest a b ha hb x y hx hy hne]
+
+/-- … otherwise the number of rows IS the length of every iterated argument, and one row when
+no argument is iterated. -/
+theorem formatlist_row_count (rest : List Value) (it : Option Nat) (hl : flLen rest none = .ok it) :
+    (∀ a ∈ rest, ∀ els, flSeq a = some els → it = some els.length) ∧
+    ((∀ a ∈ rest, flSeq a = none) → it = none) := by
+  refine ⟨(flLen_ok rest none it hl).2, ?_⟩
+  intro h
+  have := flLen_none_of_no_seq rest h
+  rw [hl] at this
+  cases this; rfl
+
+/-- Empty sequences give the empty list — without the format string being looked at. -/
+theorem formatlist_empty_sequences (L : Lib) (f : String) (rest : List Value) (hk : FlKnown rest) (hne : rest ≠ [])
+    (hl : flLen rest none = .ok (some 0)) :
+    formatListImpl L (sv f :: rest) = .ok ⟨.list .string, .seq []⟩ := by
+  have hlen : (rest.length == 0) = false := by
+    cases rest with
+    | nil => exact absurd rfl hne
+    | cons a t => rfl
+  unfold FlKnown at hk
+  simp [formatListImpl, hk, hlen, hl]
+
+/-- Without arguments `formatlist(f)` is the one-element list of `format(f)`. -/
+theorem formatlist_no_arguments (L : Lib) (f : String) :
+    formatListImpl L [sv f] =
+      (match formatImpl L [sv f] with
+       | .ok r => .ok ⟨.list .string, .seq [r.v]⟩
+       | .err e => .err e
+       | .panic w => .panic w
+       | .unmodelled => .unmodelled) := by
+  simp only [formatListImpl, arg0, Res.bind_ok, List.drop_succ_cons, List.drop_zero, List.any_nil, List.length_nil,
+    beq_self_eq_true, Bool.false_eq_true, if_false, if_true]
+  cases formatImpl L [sv f] <;> rfl
+
+/-- `formatlist` never panics, whatever the format string and the arguments. -/
+theorem formatlist_never_panics (L : Lib) (f : String) (rest : List Value) :
+    (formatListImpl L (sv f :: rest)).isPanic = false := by
+  simp only [formatListImpl, arg0, Res.bind_ok, List.drop_succ_cons, List.drop_zero]
+  split
+  · rfl
+  · split
+    · have := format_never_panics L f []
+      cases hx : formatImpl L [sv f] with
+      | ok r => rfl
+      | err e => rfl
+      | panic w => rw [hx] at this; simp [Res.isPanic] at this
+      | unmodelled => rfl
+    · simp only [asString_sv, Res.bind_ok]
+      rcases flLen_total rest none with ⟨r, hr⟩ | he
+      · rw [hr]
+        simp only
+        split
+        · rfl
+        · rw [flIter_eq]
+          have := collectRows_no_panic L ((List.range (r.getD 1)).map fun i => rowRes L f (flArgsAt rest i))
+            (by
+              intro x hx
+              obtain ⟨i, _, rfl⟩ := List.mem_map.mp hx
+              exact rowRes_no_panic L f _)
+          cases hc : collectRows L ((List.range (r.getD 1)).map fun i => rowRes L f (flArgsAt rest i)) with
+          | ok ps => rfl
+          | err e => rfl
+          | panic w => rw [hc] at this; simp [Res.isPanic] at this
+          | unmodelled => rfl
+      · rw [he]; rfl
+
 /-! ## Non-vacuity -/
 example : Normal (.fin true 5 (-1) 53) := by unfold Normal; decide
 example : ceilImpl [numVal (.fin true 5 (-1) 53)] = .ok (numVal (.fin true 1 1 53)) := rfl   -- ceil(-2.5) = -2
@@ -536,6 +1051,60 @@ example : setString "Zz".toList 62 = some 3817 := by decide
 example : setString "1_0".toList 10 = none := by decide
 example : substrClusters ["a", "é", "c"] (-2) 1 = ["é"] := by decide
 example : ¬ ((-2 : Int) < 0 ∧ (1 : Int) = 0) := by decide
+-- the grammar theorems speak of real sentences: "%-5.2[3]d" and the wrap-around witness of 721dbdb
+def exSyn : VerbSyn := { flags := ['-'], width := some ['5'], prec := some ['2'], idx := some ['3'], mode := 'd' }
+example : exSyn.wf = true := by decide
+example : exSyn.text = "-5.2[3]d".toList := by decide
+example : scanVerb ("-5.2[3]d!".toList) 7 1 = some (exSyn.verb 7 1, ['!']) := by decide
+def exHuge : VerbSyn := { flags := [], width := none, prec := none, idx := some "18446744073709551617".toList, mode := 's' }
+example : exHuge.wf = true := by decide
+example : decVal "18446744073709551617".toList = 18446744073709551617 := by decide
+example : satNum "18446744073709551617".toList = 9223372036854775807 := by decide
+example : satNum "9223372036854775800".toList = 9223372036854775807 ∧ satNum "9223372036854775799".toList = 9223372036854775799 := by decide
+example : (exHuge.verb 0 1).argNum = 9223372036854775807 := by decide
+example : stripIndex (exSyn.verb 7 1).raw = "%-5.2d".toList := by decide
+-- "%18446744073709551617d" (the width that wrapped to 1 before 84cbc5e) is refused when its argument exists
+def exLib : Lib :=
+  { nfc := id, clusters := fun s => s.toList.map String.singleton, toUpper := id, toLower := id, title := id,
+    trimSpace := id, trim := fun a _ => a, trimPrefix := fun a _ => a, trimSuffix := fun a _ => a,
+    replaceAll := fun a _ _ => a, split := fun a _ => [a], regexCompile := fun _ => some [],
+    regexReplaceAll := fun _ a _ => a, regexFind := fun _ _ => none, regexFindAll := fun _ _ => [],
+    parseTimestamp := fun _ => none, parseDuration := fun _ => false, timeAdd := fun a _ => a,
+    csvHeader := fun _ => none, csvAll := fun _ _ => ⟨[], false⟩, fmtInt := fun _ i => toString i,
+    fmtFloat := fun _ _ => "", textG := fun _ => "", jsonStr := id }
+def exWide : VerbSyn := { flags := [], width := some "18446744073709551617".toList, prec := none, idx := none, mode := 'd' }
+example : formatAppend exLib (exWide.verb 0 1) [intVal 1] = .err "unsupported width" := by decide
+-- json: the hypotheses hold of C15's nested sample value; a list comes back as a tuple of the same members
+example : JsonVal.rtHyps C15.env0 C15.sampleV C15.sampleV.ty = true ∧ JsonVal.setFree C15.sampleV.ty = true ∧
+    C15.sampleV.isNull = false := by decide +kernel
+example : JsonVal.docOK C15.env0 (.obj ["a", "b"] [.arr [.str "x", .null], .num "1.5"]) = true := by decide +kernel
+example : (match jsonDecodeTree C15.env0 (.arr [.str "a"]) with
+    | .ok v' => v'.ty.equals (.tuple [.string]) && JsonVal.sameP v'.v (.seq [.s "a"])
+    | _ => false) = true := by decide +kernel
+-- regex: the index-list law is satisfiable by a match with an unmatched group ("a(b)?" on "xa")
+example : IdxOK 2 1 [1, 2, -1, -1] := by
+  refine ⟨rfl, ?_, ?_⟩
+  · intro i hi a b ha hb
+    have : i = 0 ∨ i = 1 := by omega
+    rcases this with rfl | rfl
+    · simp at ha hb; subst ha hb; right; omega
+    · simp at ha hb; subst ha hb; left; omega
+  · intro a ha; simp at ha; omega
+-- formatdate: noon and midnight, a negative offset with minutes
+def exNoon : Time := ⟨2021, 6, 13, 0, 12, 7, 9, -12600⟩
+example : verbText exNoon 'H' 1 = .ok "12" ∧ verbText exNoon 'A' 2 = .ok "PM" := by decide
+example : verbText { exNoon with hour := 0 } 'H' 2 = .ok "12" ∧ verbText { exNoon with hour := 0 } 'a' 2 = .ok "am" := by decide
+example : verbText exNoon 'Z' 5 = .ok "-03:30" := by decide
+example : tokenize 7 ['h', 'h', '-', '\'', 'a', '\''] = [['h', 'h'], ['-'], ['\'', 'a', '\'']] := by decide
+-- formatlist: a list, a tuple and a single value; two rows
+def exFl : List Value := [⟨.list .string, .seq [.s "a", .s "b"]⟩, ⟨.tuple [.number, .bool], .seq [.n (.fin false 1 0 64), .b true]⟩, sv "z"]
+example : FlKnown exFl := by unfold FlKnown; decide
+example : flLen exFl none = .ok (some 2) := by decide
+example : flArgsAt exFl 1 = [sv "b", ⟨.bool, .b true⟩, sv "z"] := by decide
+example : flLen [sv "x", intVal 3] none = .ok none := by decide
+-- indent: the side conditions are satisfiable, and 2^40 spaces on a string without a line break are fine
+example : countNewlines "a\nb\n".toList = 2 := by decide
+example : indentChars 2 "a\nb".toList = "a\n  b".toList := by decide
 
 end C14
 end CtyModel
